@@ -6,6 +6,7 @@ func init() {
 		NotDecided:  "ID-set equality with an in-memory reference under all schedules; visibility under every interleaving of the background workers (only the ordering preconditions).",
 		Assumptions: []string{"sync.RWMutex semantics", "sub-indexes satisfy C01-C07"},
 	}, func(r *Run) {
+		ruleErrProp(r, "C08.ERRPROP", "storage")
 		k, err := storeKindOf(r.W)
 		if err != nil {
 			r.Unres("C08.KIND", "store", err.Error())
@@ -18,6 +19,7 @@ func init() {
 		ruleFreezeHandshake(r, "C08.FROZEN")
 		ruleMerge(r, "C08")
 		ruleStoreParams(r, "C08.PARAMS", k)
+		ruleStoreForwardGuards(r, "C08.PARAMS", k)
 		if ruleBuilders(r, "C08.BLD", k.SearchT) < 11 {
 			r.add("C08.BLD", "floor", "-", "fewer than 11 builder methods on the persistent search type", Floor)
 		}
@@ -33,6 +35,7 @@ func init() {
 		NotDecided:  "power-loss durability (no fsync; the property speaks of process restart); behaviour of other processes.",
 		Assumptions: []string{"os / gzip contracts: Close reports write errors", "sync.WaitGroup happens-before"},
 	}, func(r *Run) {
+		ruleErrProp(r, "C09.ERRPROP", "storage")
 		k, err := storeKindOf(r.W)
 		if err != nil {
 			r.Unres("C09.KIND", "store", err.Error())
@@ -61,6 +64,7 @@ func init() {
 		NotDecided:  "actual decode behaviour on each byte prefix of gzip data; atomicity of individual file-system calls.",
 		Assumptions: []string{"os.Create truncates / creates; os.Remove removes one name", "gzip.Reader verifies CRC and length when read to EOF"},
 	}, func(r *Run) {
+		ruleErrProp(r, "C10.ERRPROP", "storage")
 		k, err := storeKindOf(r.W)
 		if err != nil {
 			r.Unres("C10.KIND", "store", err.Error())
